@@ -41,8 +41,17 @@ type EConn struct {
 	Abortive bool    `json:"abortive"` // client resets instead of closing
 }
 
+// EStall makes the receiver block inside its Nth Accept call of one connection: back-pressure from the pipeline (the interface
+// lets Accept block up to the hand-over timeout), which keeps the connection's goroutine away from reading
+type EStall struct {
+	Conn int `json:"conn"`
+	Nth  int `json:"nth"`
+	Ms   int `json:"ms"`
+}
+
 // EScenario is one world-E run
 type EScenario struct {
+	AcceptStall *EStall `json:"accept_stall,omitempty"`
 	Fine        bool    `json:"fine_yields,omitempty"` // every larger function entry of the code under test is a preemption point in this run
 	FlushMs     int     `json:"flush_interval_ms"`
 	RecordLimit int     `json:"record_limit"`
@@ -170,6 +179,19 @@ func (w *worldE) Generate(r *simrt.Rand, profile, tier string) any {
 		s.Conns = append(s.Conns, ec)
 	}
 	s.StopFirst = r.Bool(15)
+	if profile == "mixed" && r.Bool(12) {
+		// A consumer that blocks while the client has already written everything: every client write happens at one instant
+		// (no pause anywhere), so whatever the agent has not read when the stall begins is waiting in the socket when it ends,
+		// and reads return all of it (no segment-preserving reads in these runs). No flush pause separates any two lines of the
+		// stream, so every record has to come out whole, however long the consumer took.
+		ci := r.Intn(len(s.Conns))
+		for fi := range s.Conns[ci].Frags {
+			s.Conns[ci].Frags[fi].PauseMs = 0
+		}
+		s.StopFirst = false // (a stop closes connections with whatever is still unread in them; here the clients end the run)
+		nrec := strings.Count(s.Conns[ci].Stream, "\n<") + 1
+		s.AcceptStall = &EStall{Conn: ci, Nth: r.Intn(nrec), Ms: s.FlushMs * []int{1, 3, 5, 9, 21}[r.Intn(5)] / []int{1, 2}[r.Intn(2)]}
+	}
 	return s
 }
 
@@ -215,10 +237,20 @@ func (w *worldE) Shrink(sc any) []any {
 		c.Sweep = false
 		return &c
 	}
-	if len(s.Conns) > 1 {
+	if len(s.Conns) > 1 && s.AcceptStall == nil {
 		for i := range s.Conns {
 			c := clone()
 			c.Conns = append(c.Conns[:i], c.Conns[i+1:]...)
+			out = append(out, c)
+		}
+	}
+	if s.AcceptStall != nil {
+		c := clone()
+		c.AcceptStall = nil
+		out = append(out, c)
+		if s.AcceptStall.Nth > 0 {
+			c = clone()
+			c.AcceptStall.Nth--
 			out = append(out, c)
 		}
 	}
@@ -291,6 +323,10 @@ func (s *eSink) Accept(m []byte) {
 	simrt.Yield("e.sink.Accept")
 	// the interface says the slice is not usable after Accept returns: copy now
 	s.msgs = append(s.msgs, string(m))
+	if st := s.r.s.AcceptStall; st != nil && st.Conn < len(s.r.addrOf) && s.r.addrOf[st.Conn] == s.addr && len(s.msgs)-1 == st.Nth {
+		s.r.out.fault("consumer_blocks_in_accept", 1)
+		simrt.Sleep("e.sink.Accept.stall", ms(st.Ms))
+	}
 }
 func (s *eSink) Flush() { s.flush++ }
 func (s *eSink) Close() {
@@ -372,7 +408,7 @@ func (r *eRun) drive() {
 				r.out.Harness = "connect: " + err.Error()
 				return
 			}
-			c.Peer().SegmentReads = true
+			c.Peer().SegmentReads = s.AcceptStall == nil
 			r.addrOf[ci] = c.LocalAddr().String()
 			off := 0
 			for _, f := range ec.Frags {
@@ -628,6 +664,9 @@ IDLE:
 		if noFlushClass {
 			r.out.probe("no_flush_class", 1)
 		}
+	}
+	if simnet.W != nil {
+		out.probe("reads_issued_with_expired_deadline_while_data_waits", simnet.W.Stats.ExpiredDeadlineReadsWithDataWaiting)
 	}
 	nf := 0
 	for _, v := range out.Faults {
